@@ -42,14 +42,14 @@ type fkDef struct {
 }
 
 type tableDef struct {
-	Name  string
-	Cols  []string
-	Keys  [][]int // every key of the table; Keys[0] is index 0 in the schema
+	Name string
+	Cols []string
+	Keys [][]int // every key of the table; Keys[0] is index 0 in the schema
 	// Uniques are unique indexes: like keys, except that any number of rows
 	// may have all of these columns empty
 	Uniques [][]int
-	Fks   []fkDef
-	Admin string // the create statement handed to the implementation
+	Fks     []fkDef
+	Admin   string // the create statement handed to the implementation
 }
 
 type schemaDef struct {
